@@ -168,6 +168,8 @@ class FaultyStream:
         return n if c is None else min(n, c)
 
     def read(self, n):
+        if n is None or n < 0:
+            n = len(self.data) - self.pos  # io semantics: a negative size reads everything that is left
         n = self._limit(n)
         d = self.data[self.pos:self.pos + n]
         self.pos += len(d)
